@@ -487,8 +487,10 @@ func (tree *Tree) recursiveRemove(node *Node, key []byte) (newSelf *Node, newKey
 		if bytes.Equal(key, node.key) {
 			// we don't create an orphan here because the leaf node is removed
 			tree.addDelete(node)
+			// the node goes back to the pool, which clears it: keep the value first
+			value := node.value
 			tree.returnNode(node)
-			return nil, nil, node.value, true, nil
+			return nil, nil, value, true, nil
 		}
 		return node, nil, nil, false, nil
 	}
@@ -569,10 +571,16 @@ func (tree *Tree) recursiveRemove(node *Node, key []byte) (newSelf *Node, newKey
 }
 
 func (tree *Tree) Size() int64 {
+	if tree.root == nil {
+		return 0
+	}
 	return tree.root.size
 }
 
 func (tree *Tree) Height() int8 {
+	if tree.root == nil {
+		return 0
+	}
 	return tree.root.subtreeHeight
 }
 
